@@ -9,7 +9,7 @@ From Verif Require Import c05.Proofs_LimiterMon c05.Proofs_WorkerMon c05.Proofs_
 From Verif Require Import c05.ModelSync c05.SpecSync c05.Proofs_Sync c05.SpecDialPeer.
 From Verif Require Import c05.ModelComposite c05.SpecComposite c05.Proofs_Composite c05.Proofs_Composite2 c05.Proofs_Composite3.
 From Verif Require Import c05.Proofs_Composite4 c05.Proofs_Composite5 c05.Proofs_Composite6 c05.Proofs_CompositeMon.
-From Verif Require Import c05.Proofs_CompositeHI c05.Proofs_CompositeMon5.
+From Verif Require Import c05.Proofs_CompositeHI c05.Proofs_CompositeMon5 c05.Proofs_CompositeQ c05.Proofs_CompositeMon6.
 Import ListNotations.
 Local Open Scope Z_scope.
 
@@ -299,25 +299,35 @@ Theorem c05_composite_no_lost_job : forall fdl ppl fd ls, 0 <= fdl -> 0 <= ppl -
 Proof. exact no_lost_job_l. Qed.
 Print Assumptions c05_composite_no_lost_job.
 
+(* The drain of the harness-level semantics (SpecComposite.drain: rounds of "everything that can
+   run runs", as many as a bound computed from the state) ends, from every state the semantics
+   reaches, in a state in which nothing can move: no request to deliver, no due timer, no
+   started goroutine, no cancelled dial in progress, no ready return, no exit pending. *)
+Theorem c05_composite_drain_quiescent : forall fdl ppl es, QI fdl ppl es -> Quiet (drain es) /\ QI fdl ppl (drain es).
+Proof. exact drain_quiet. Qed.
+Print Assumptions c05_composite_drain_quiescent.
+
 (* HEADLINE (composite): the DialPeer monitor that judges the implementation's traces, run on
    the trace of the composite model under the harness-level semantics (SpecComposite: one
    stimulus, then every enabled step until nothing moves) for EVERY sequence of stimuli with
-   fresh caller ids and repetition-free rankings, never reports clause 1 (a return is of a
-   caller inside, at most once, never of another peer, with a connection only after some dial
-   produced one), 2 (a cancelled caller is released in the same step with its context error),
-   3 (while any caller waits each address is handed to a transport at most once), 4 (caps) or
-   7 (the count of callers inside).
-   _partial, exactly what remains: clauses 5 (cancel ends no dial of the others), 6 (nothing
-   left once all returned) and 9 (a caller waits only while a dial is in flight) need the
-   lemma that the drain of SpecComposite reaches quiescence (no deliverable request, no due
-   timer, no started goroutine, no cancelled dial in progress, no ready return, no exit
-   pending); their state-level counterparts for every schedule are
-   c05_composite_leaving_caller_keeps_shared_dials, _no_leaked_active_dial and _no_lost_job. *)
-Theorem c05_composite_monitor_accepts_partial : forall fdl ppl fds xs, 0 <= fdl -> 0 <= ppl ->
+   fresh caller ids and repetition-free rankings and limits >= 1, never reports clause 1 (a
+   return is of a caller inside, at most once, never of another peer, with a connection only
+   after some dial produced one), 2 (a cancelled caller is released in the same step with its
+   context error), 3 (while any caller waits each address is handed to a transport at most
+   once), 4 (caps), 5 (cancelling one caller ends no dial of the others), 6 (once all callers
+   have returned nothing is left: no dial, no token, no active dial, no goroutine) or 7 (the
+   count of callers inside).
+   _partial, exactly what remains: clause 9 (after more virtual time than any ranking delay a
+   caller still waits only while some dial is in progress).  Missing lemma: after an advance of
+   at least 2 s the dial queue of the live worker is empty (advance_to fires every due timer;
+   needs ranking delays below 2 s in the well-formedness of stimuli), so that quiescence and
+   c05_response_at_least_once_at_quiescence leave a waiting caller only with a dial in
+   flight; the state-level counterpart for every schedule is c05_composite_no_lost_job. *)
+Theorem c05_composite_monitor_accepts_partial : forall fdl ppl fds xs, 1 <= fdl -> 1 <= ppl ->
   wf_kstims2 (init_denv, init_c fdl ppl fds) xs ->
   forall d, monitor_d fdl ppl (mkDmon [] [] [] false false) 0 (ctrace (init_denv, init_c fdl ppl fds) xs) = d ->
-  d = [] \/ exists j c, d = [ERR_PROPERTY; j; c] /\ (c = 5 \/ c = 6 \/ c = 9).
-Proof. exact monitor_d_accepts_569_l. Qed.
+  d = [] \/ exists j, d = [ERR_PROPERTY; j; 9].
+Proof. exact monitor_d_accepts_9_l. Qed.
 Print Assumptions c05_composite_monitor_accepts_partial.
 
 (* ---- non-vacuity ----------------------------------------------------------------- *)
